@@ -85,10 +85,10 @@ def build_pool(seed, d):
     ops = []
     modes = list(itertools.product(("bool", "list"), ("first", "all"), (False, True)))
 
-    def add(name, doc, inp, dims, macros=None, binary=False, mode=None, raw=None):
+    def add(name, doc, inp, dims, macros=None, binary=False, mode=None, raw=None, compile_only=False):
         rp = w(f"rule_{len(ops)}.yaml", raw if raw is not None else jasm_io.dump_yaml(doc))
         m = mode or modes[len(ops) % 8]
-        ops.append({"id": len(ops), "name": name, "rule": rp, "input": inp, "binary": binary, "macros": macros, "mode": list(m), "dims": dims})
+        ops.append({"id": len(ops), "name": name, "rule": rp, "input": inp, "binary": binary, "macros": macros, "mode": list(m), "dims": dims, "compile_only": compile_only})
 
     flagvals = [None, False, True]
     for mn, op in itertools.product(flagvals, flagvals):
@@ -137,6 +137,16 @@ def build_pool(seed, d):
     add("fail: missing input", jasm_io.make_doc(["mov"]), os.path.join(d, "missing.s"), {"fails": "input"})
     add("fail: missing rule", None, la, {"fails": "rule"}, raw="pattern: [")
     add("fail: objdump on text", jasm_io.make_doc(["mov"], config={"sections": [".text"], "valid_addr_range": {"min": "10", "max": "20"}, "mnemonics-full-match": True}), la, {"fails": "binary", "mn": True, "range": "x", "sections": "x"}, binary=True)
+    # operations that load a rule's config without completing a match: a compilation through the other public entry point
+    # (Yaml2Regex(...).produce_regex()), and matches whose rule fails to compile AFTER its config section was read
+    for cfg_name, cfg in (("range-a", {"valid_addr_range": {"min": "0x10", "max": "0x2f"}}), ("range-b", {"valid_addr_range": {"min": "401000", "max": "401fff"}}), ("no-config", None),
+                          ("sections", {"sections": [".text.hot"]}), ("style-intel", {"style": "intel"}), ("flags", {"mnemonics-full-match": True, "operands-full-match": True})):
+        add(f"compile only ({cfg_name})", jasm_io.make_doc([{"call": ["valid_addr"]}, "mov"], config=cfg), la, {"compile-only": cfg_name}, compile_only=True)
+        add(f"fail after config ({cfg_name})", jasm_io.make_doc(["mov", "@nope"], config=cfg, macros=[{"name": "@m", "pattern": "x"}]), bn if cfg_name in ("sections", "style-intel") else la,
+            {"fails": "macro-after-config:" + cfg_name}, binary=cfg_name in ("sections", "style-intel"))
+    # a rule whose sections are all absent from the binary: objdump exits 1, the operation raises - in a fresh process as well
+    add("sections all absent", jasm_io.make_doc(["push"], config={"sections": [".init", ".fini"]}), bn, {"fails": "sections-absent"}, binary=True, mode=("list", "all", True))
+    add("sections all absent 2", jasm_io.make_doc(["pop", "ret"], config={"sections": [".nosuch"]}), bn, {"fails": "sections-absent"}, binary=True, mode=("bool", "first", False))
     rnd.shuffle(ops)
     for k, o in enumerate(ops):
         o["id"] = k
@@ -145,6 +155,10 @@ def build_pool(seed, d):
 
 def run_op(o):
     mode, search, only = o["mode"]
+    if o.get("compile_only"):
+        with open(o["rule"]) as f:
+            r = jasm_io.compile_rule(f.read(), macros=o["macros"])
+        return ["exc", r[1]] if r[0] == "exc" else ["inconclusive"] if r[0] == "inconclusive" else ["ok", r[1]]
     r = jasm_io.match_files(o["rule"], o["input"], mode=mode, search=search, only_addr=only, macros=o["macros"], binary=o["binary"])
     if r[0] == "exc":
         return ["exc", r[1]]
@@ -205,9 +219,18 @@ def histories(draw, max_len=40):
     n = len(_load()[0])
     length = draw(st.integers(2, max_len))
     h = []
+    pool = _load()[0]
+    disturbers = [o["id"] for o in pool if o.get("compile_only") or "fails" in o["dims"]]
     for _ in range(length):
-        if h and draw(st.integers(0, 5)) == 0:
+        c = draw(st.integers(0, 11))
+        if h and c in (0, 1):
             h.append(h[-1])  # repeat the previous operation
+        elif h and c == 2:
+            h.append(h[draw(st.integers(0, len(h) - 1))])  # ask an earlier question again
+        elif c == 3 and disturbers:
+            # the same operation before and after something that loads another rule's config without completing a match
+            x = draw(st.integers(0, n - 1))
+            h += [x, draw(st.sampled_from(disturbers)), x]
         else:
             h.append(draw(st.integers(0, n - 1)))
     return {"history": h}
